@@ -1295,7 +1295,7 @@ func (g *GuardEngine) flatAtoms(fd *FuncDecl, onPath map[*FuncDecl]bool, depth i
 			return r
 		}
 	}
-	if onPath[fd] || depth > 6 {
+	if onPath[fd] || depth > 8 {
 		return nil
 	}
 	onPath[fd] = true
@@ -1589,7 +1589,7 @@ func applySubsts(s string, ss []paramSubst) string {
 // flatTagSites: blame-tag value shapes of fd and of the private helpers it calls (with parameters
 // substituted by the call-site arguments).
 func (g *GuardEngine) flatTagSites(fd *FuncDecl, onPath map[*FuncDecl]bool, depth int) []string {
-	if onPath[fd] || depth > 4 {
+	if onPath[fd] || depth > 8 {
 		return nil
 	}
 	onPath[fd] = true
